@@ -182,14 +182,19 @@ def run(tier="quick", seed=0, only=None):
             ri, rs, rt = axis_vocab(R, small)
             ci, cs, ct = axis_vocab(C, small)
             lf = lambda: lazy_of(k, x1, x2)  # noqa: E731  (a fresh lazy tensor each time: no caches carried between expressions)
-            pre = [()] if not len(bshape) else ([(0,), (slice(None),), (torch.tensor([1, 0]),)] if small else [(0,), (-1,), (slice(None),), (slice(0, 1),), (torch.tensor([1, 0]),)])
+            pre = [()] if not len(bshape) else ([(0,), (slice(None),), (torch.tensor([1, 0]),)] if small else [(0,), (-1,), (slice(None),), (torch.tensor([1, 0]),)])
             for pb in pre:
                 lead = pb
                 # slices on both axes (the lazy fast path), incl. the Ellipsis form
-                for a, b_ in itertools.product(rs, cs[:: 2 if small and len(bshape) else 1]):
+                # quick: every row slice x every (second) column slice of the small vocabulary; thorough: the large vocabulary (363 slices per
+                # axis) in a cross pattern -- every row slice against every 19th column slice and vice versa (the full 131k-pair square per
+                # kernel and prefix would take hours and adds no new slice forms)
+                pairs = (itertools.product(rs, cs[:: 2 if len(bshape) else 1]) if small
+                         else itertools.chain(itertools.product(rs, cs[::19]), itertools.product(rs[::19], cs)))
+                for a, b_ in pairs:
                     compare_index(tag, lf, dense, (*lead, a, b_))
                 if not len(bshape) or pb == (slice(None),):
-                    for a, b_ in itertools.product(rs[:: 3 if small else 1], cs[:: 3 if small else 1]):
+                    for a, b_ in itertools.product(rs[:: 3 if small else 19], cs[:: 3 if small else 19]):
                         compare_index(tag, lf, dense, (Ellipsis, a, b_))
                 # ints and tensors against slices, and against each other
                 for a in ri + rt:
